@@ -31,6 +31,9 @@ type MoveWriter struct {
 
 // WriteCopyData writes the untagged COPYUID response for a MOVE command.
 func (w *MoveWriter) WriteCopyData(data *imap.CopyData) error {
+	if data == nil || len(data.SourceUIDs) == 0 || len(data.DestUIDs) == 0 {
+		return nil // nothing has been moved
+	}
 	return w.conn.writeCopyOK("", data)
 }
 
